@@ -237,6 +237,16 @@ def atomicRun (old : Option Content) (chunks : List Content) (failAt : Option Na
     else if failAt = some (n + 2) then (true, { w.1 with temp := none })
     else (false, aStep w.1 .rename)
 
+/-- AS CODED (recorded finding `atomic-put-producer-failure-published`): the helpers
+    (ForWriteObject, copyReadObject, bufconfig.putFileForPrefix, the tar store) Close the object
+    in a deferred call also when the PRODUCER of the content — the callback, the source reader,
+    the encoder — fails after `k` chunks.  No Write failed, so `Close` closes the temp file and
+    renames it: the error is returned, but the truncated content is published. -/
+def atomicProducerFail (old : Option Content) (chunks : List Content) (k : Nat) : Bool × ADir :=
+  let d1 := aStep { final := old, temp := none } .createTemp
+  let d2 := (chunks.take k).foldl (fun d c => aStep d (.write c)) d1
+  (true, aStep d2 .rename)
+
 /-- The directory a reader / a crash survivor sees after the first `j` steps of a fault-free
     atomic put. -/
 def atomicPrefix (old : Option Content) (chunks : List Content) (j : Nat) : ADir :=
@@ -245,5 +255,53 @@ def atomicPrefix (old : Option Content) (chunks : List Content) (j : Nat) : ADir
 /-- Non-atomic put (os.Create, then writes): the object itself is truncated and grows. -/
 def plainPrefix (old : Option Content) (chunks : List Content) (j : Nat) : Option Content :=
   if j = 0 then old else some (joinContent (chunks.take (j - 1)))
+
+/-! ### Two concurrent atomic puts of the SAME path
+
+Each atomic put creates its own temp file (`os.CreateTemp`: a fresh random name), writes into it
+and renames it over the final path.  `shared = true` is the variant in which both puts use one
+fixed temp name (kept for the counterexample).  A schedule interleaves the two programs. -/
+
+inductive Who where
+  | a | b
+  deriving DecidableEq, Repr
+
+structure CDir where
+  final : Option Content
+  ta : Option Content       -- temp file of writer a (of both writers when `shared`)
+  tb : Option Content
+  deriving DecidableEq, Repr
+
+/-- One successful step of one of the two writers.  A rename whose temp file is gone (possible
+    only with a shared temp name) fails and changes nothing. -/
+def cStep (shared : Bool) (d : CDir) : Who × AStep → CDir
+  | (w, .createTemp) => if w = .a || shared then { d with ta := some "" } else { d with tb := some "" }
+  | (w, .write c) => if w = .a || shared then { d with ta := d.ta.map (· ++ c) } else { d with tb := d.tb.map (· ++ c) }
+  | (_, .closeFile) => d
+  | (w, .rename) =>
+    if w = .a || shared then
+      (match d.ta with
+        | some t => { d with final := some t, ta := none }
+        | none => d)
+    else
+      (match d.tb with
+        | some t => { d with final := some t, tb := none }
+        | none => d)
+
+/-- Interleave two programs: `true` = writer a moves next, `false` = writer b; a writer that has
+    finished is skipped; an exhausted schedule lets a run first. -/
+def merge2 : List Bool → List AStep → List AStep → List (Who × AStep)
+  | _, [], [] => []
+  | s, [], y :: ys => (Who.b, y) :: merge2 s.tail [] ys
+  | s, x :: xs, [] => (Who.a, x) :: merge2 s.tail xs []
+  | [], x :: xs, y :: ys => (Who.a, x) :: merge2 [] xs (y :: ys)
+  | true :: s, x :: xs, y :: ys => (Who.a, x) :: merge2 s xs (y :: ys)
+  | false :: s, x :: xs, y :: ys => (Who.b, y) :: merge2 s (x :: xs) ys
+termination_by _ xs ys => xs.length + ys.length
+
+/-- What a reader sees at the final path after the first `j` steps of two interleaved atomic
+    puts (contents `ca`, `cb`) of one path. -/
+def concurrentPrefix (shared : Bool) (old : Option Content) (ca cb : List Content) (sched : List Bool) (j : Nat) : CDir :=
+  ((merge2 sched (atomicSteps ca) (atomicSteps cb)).take j).foldl (cStep shared) { final := old, ta := none, tb := none }
 
 end BufModel.Faults
